@@ -104,7 +104,8 @@ C14_SPEC = dict(
     rule="[TRANSFAC] files written from random record lists (1..300 records, matrices of 1..40 rows, optional "
          "ID/AC/NA/DE, P0 symbols a permutation of all / all+wildcard / a subset, DNA and protein, integer and "
          "decimal/exponent/nan/inf/huge counts, LF or CRLF, optional VV header, with or without the final newline) by "
-         "the canonical printer (= Coq print_file, compared byte for byte) or by a layout-varied printer (field order, "
+         "the canonical printer (= Coq print_file, compared byte for byte; per record a random blank/tab column "
+         "separator, P0/PO, optional consensus column or trailing blanks) or by a layout-varied printer (field order, "
          "XX lines, blanks/tabs, PO/P0, label styles, consensus column, references, unobserved BF/BA/BS/CC/CO/DT lines), "
          "plus the bundled tests/*.transfac and benches/prodoric.transfac (353 records); each file read through "
          "BufReader capacities 1,2,3,5,17,64,8192,1048576 and a custom BufRead with a cyclic random chunk-size pattern. "
@@ -117,11 +118,13 @@ C14_SPEC = dict(
     assumptions=[
         "TRANSFAC: reader_roundtrip (all record lists meeting the boolean wf_file, all chunkings) is proved for the "
         "canonical layout written by TransfacPrint.print_file: optional VV header, per record AC/ID/NA/DE lines (each "
-        "followed by XX) and a P0 block (symbols in any order / any subset without repetition, one row per position, "
-        "XX), '//' line, LF or CRLF, last '//' with or without line ending; counts = any token that nom's float parser "
+        "followed by XX) and a matrix block (header P0 or PO, symbols in any order / any subset without repetition, "
+        "any non-empty blank/tab string per record before every symbol and count, one row per position, any one-line "
+        "UTF-8 text starting with a blank after the last count -- e.g. the consensus letter column --, XX), '//' "
+        "line, LF or CRLF, last '//' with or without line ending; counts = any token that nom's float parser "
         "accepts entirely (digits, fraction, exponent, sign, nan, inf), row labels = anything nom's u32 accepts, field "
         "values = any one-line valid UTF-8 text that trim() leaves unchanged. The other layouts the reader accepts "
-        "(field order, PO spelling, blanks/tabs, consensus column, RN/RX/RA/RT/RL, BF/BA/BS/CC/CO/DT lines) are "
+        "(field order, blanks varying inside a record, RN/RX/RA/RT/RL, BF/BA/BS/CC/CO/DT lines) are "
         "covered by the correspondence check (model = implementation, implementation = written records) only",
         "TRANSFAC: the theorems speak of count *tokens* (the matrix cell holds the token written under that symbol); "
         "the token -> f32 conversion is outside the theorem: Dec2F32.f32_of_token (exact, Flocq) is compared bit for "
